@@ -52,6 +52,9 @@ typedef struct {
     uint32_t top_offset;            /* bytecode offset of loop top */
     Patch breaks[MAX_BREAKS];       /* break jump patches */
     int break_count;
+    bool is_for;                    /* for loop: continue must run the increment, patched later */
+    Patch continues[MAX_BREAKS];    /* continue jump patches (for loops only) */
+    int continue_count;
 } LoopCtx;
 
 typedef struct {
@@ -2098,6 +2101,8 @@ static void compile_stmt(CG *cg, ASTNode *node) {
 
         LoopCtx *loop = &cg->loops[cg->loop_depth++];
         loop->break_count = 0;
+        loop->is_for = false;
+        loop->continue_count = 0;
         loop->top_offset = cg->code_size;
 
         compile_expr(cg, node->as.while_stmt.condition);
@@ -2156,6 +2161,8 @@ static void compile_stmt(CG *cg, ASTNode *node) {
 
         LoopCtx *loop = &cg->loops[cg->loop_depth++];
         loop->break_count = 0;
+        loop->is_for = true;
+        loop->continue_count = 0;
         loop->top_offset = cg->code_size;
 
         /* Check: idx < len */
@@ -2177,6 +2184,12 @@ static void compile_stmt(CG *cg, ASTNode *node) {
 
         /* Compile body */
         compile_stmt(cg, node->as.for_stmt.body);
+
+        /* continue lands here: the increment must run before the next test */
+        for (int i = 0; i < loop->continue_count; i++) {
+            patch_jump(cg, loop->continues[i].patch_offset,
+                       loop->continues[i].instr_offset, cg->code_size);
+        }
 
         /* Increment counter */
         emit_op(cg, OP_LOAD_LOCAL, (int)idx_slot);
@@ -2244,8 +2257,18 @@ static void compile_stmt(CG *cg, ASTNode *node) {
         }
         LoopCtx *loop = &cg->loops[cg->loop_depth - 1];
         uint32_t jmp_instr = cg->code_size;
-        emit_op(cg, OP_JMP, (int32_t)0);
-        patch_jump(cg, jmp_instr + 1, jmp_instr, loop->top_offset);
+        uint32_t cont_off = emit_op(cg, OP_JMP, (int32_t)0);
+        if (loop->is_for) {
+            if (loop->continue_count >= MAX_BREAKS) {
+                cg_error(cg, node->line, "too many continues in loop");
+                break;
+            }
+            loop->continues[loop->continue_count].patch_offset = cont_off + 1;
+            loop->continues[loop->continue_count].instr_offset = jmp_instr;
+            loop->continue_count++;
+        } else {
+            patch_jump(cg, jmp_instr + 1, jmp_instr, loop->top_offset);
+        }
         break;
     }
 
